@@ -155,7 +155,8 @@ CasesX ==
 \* ------------------------------------------------------------------ allotments through scripts (C24)
 Accts5 == <<"a", "b", "c", "d", "e">>
 Bal5 == [x \in {"a", "b", "c", "d", "e"} |-> [as \in {A1, A2} |-> 0]]
-PVecsA == IF Thorough THEN PVecs(6, 4) ELSE PVecs(4, 3)
+PVecsA == (IF Thorough THEN PVecs(6, 4) ELSE PVecs(4, 3))
+          \cup {<<P(33, 100), P(67, 100)>>, <<P(33, 100), PRem>>, <<PRem, P(7, 100), P(1, 4)>>}
 AmtsA  == IF Thorough THEN 0..13 ELSE {0, 1, 2, 3, 5, 7, 11}
 CasesA ==
     {Case("A", <<Send(A1, amt, SWorld, DAllot(pv, [i \in 1..Len(pv) |-> DAcct(Accts5[i])]))>>, Bal5) : pv \in PVecsA, amt \in AmtsA}
@@ -265,12 +266,33 @@ FamilyOk(r) == (c.fam = "X" => r.err = "compile") /\ (c.fam \in {"E1", "E2", "E3
 
 \* The single invariant used by the checks: all theorems on the case, then print it with its outcome
 \* (Run and Ideal are evaluated once per case).
+\* Family A (C24 through scripts): the outcome for amount m*D + amt is affine in m (D: common
+\* denominator of the allotment): same postings, amounts growing by a constant per unit of m.
+\* TLC checks it on m = 1, 2, 3; the harness extrapolates posts(m) = p1 + (m - 1) * (p2 - p1) to
+\* amounts far beyond TLC's integers (inside and above the 64-bit machine word).
+AllotPorts(prog) == IF prog[1].src.k = "allot" THEN prog[1].src.ports ELSE prog[1].dst.ports
+WithAmt(prog, a) == <<[prog[1] EXCEPT !.amt = a]>>
+ScalePosts(m) == Run(WithAmt(c.prog, m * CommonDen(AllotPorts(c.prog)) + c.prog[1].amt), c.bal).posts
+ThmScriptScale(p1, p2, p3) ==
+    /\ Len(p1) = Len(p2) /\ Len(p2) = Len(p3)
+    /\ \A i \in 1..Len(p1) :
+          /\ p1[i].s = p2[i].s /\ p2[i].s = p3[i].s /\ p1[i].d = p2[i].d /\ p2[i].d = p3[i].d
+          /\ p2[i].n - p1[i].n >= 0 /\ p3[i].n - p2[i].n = p2[i].n - p1[i].n
+
 CheckAndEmit ==
     LET r == R
         id == ID
     IN /\ AllTheorems(c.prog, c.bal, r, id)
        /\ FamilyOk(r)
-       /\ PrintT(<<"CASE", ToJson([fam |-> c.fam, prog |-> c.prog, bal |-> c.bal, exp |-> Outcome(c.prog, r, id)])>>)
+       /\ IF c.fam = "A"
+          THEN LET p1 == ScalePosts(1)
+                   p2 == ScalePosts(2)
+               IN /\ ThmScriptScale(p1, p2, ScalePosts(3))
+                  /\ PrintT(<<"CASE", ToJson([fam |-> c.fam, prog |-> c.prog, bal |-> c.bal, exp |-> Outcome(c.prog, r, id),
+                                              scale |-> [den |-> CommonDen(AllotPorts(c.prog)), p1 |-> p1, p2 |-> p2]])>>)
+          ELSE PrintT(<<"CASE", ToJson([fam |-> c.fam, prog |-> c.prog, bal |-> c.bal, exp |-> Outcome(c.prog, r, id)])>>)
+
+Inv_ScriptScale == c.fam = "A" => ThmScriptScale(ScalePosts(1), ScalePosts(2), ScalePosts(3))
 
 \* The same theorems one by one (cfg *_diag: names the theorem that fails)
 Inv_NonNeg        == ThmNonNeg(R)
